@@ -176,7 +176,7 @@ func (m ModelSpec) spelled(n NameRef) string {
 }
 
 func (c Case) key() string {
-	return fmt.Sprintf("%v|%d|%v|%d|%v|%v|%v|%v|%d|%d|%v|%v", c.Model.Tags, c.Model.TimeKind, c.Model.CTag, c.Fin, c.Sel.Star, c.Sel.Sel, c.Sel.Omit, c.Vals, c.KeySpell, c.Target, c.TVals, c.SkipHooks)
+	return fmt.Sprintf("%d%v|%v|%d|%v|%d|%v|%v|%v|%v|%d|%d|%v|%v", c.Model.Shape, c.Model.PatchTags, c.Model.Tags, c.Model.TimeKind, c.Model.CTag, c.Fin, c.Sel.Star, c.Sel.Sel, c.Sel.Omit, c.Vals, c.KeySpell, c.Target, c.TVals, c.SkipHooks)
 }
 
 // ---------------------------------------------------------------------------
@@ -267,7 +267,53 @@ func (c Case) newStruct(id uint, r int) reflect.Value {
 			}
 		}
 	}
+	// decoys: values in fields that are NOT the effective field of any of the
+	// asserted columns
+	switch c.Model.Shape {
+	case shapeOverrideBaseFirst, shapeOverrideBaseLast:
+		b := v.FieldByName("Base")
+		for i := 0; i < 4; i++ {
+			if c.Model.Tags[i] != tgNone { // shadowed by the outer field
+				if dataIsString[i] {
+					b.Field(i).SetString("DECOY")
+				} else {
+					b.Field(i).SetInt(424242)
+				}
+			}
+		}
+	case shapePrefixShadow:
+		f := v.FieldByName("Aud").Field(0)
+		if f.Kind() == reflect.String {
+			f.SetString(fmt.Sprintf("AUD_%d", r))
+		} else {
+			f.SetInt(int64(515100 + r))
+		}
+	}
 	return p
+}
+
+// newPatch: value of the separate patch struct type (shapePatch)
+func (c Case) newPatch() reflect.Value {
+	p := reflect.New(c.Model.PatchType())
+	v := p.Elem()
+	for i := 0; i < 4; i++ {
+		if c.Vals[i] == vNonZero || c.Vals[i] == vExpr {
+			if dataIsString[i] {
+				v.Field(i).SetString(nonZeroVal(i, 0).(string))
+			} else {
+				v.Field(i).SetInt(nonZeroVal(i, 0).(int64))
+			}
+		}
+	}
+	return p
+}
+
+// updValue: the struct value handed to Updates / UpdateColumns
+func (c Case) updValue() (reflect.Value, string) {
+	if c.Model.Shape == shapePatch {
+		return c.newPatch(), "P" + strings.TrimPrefix(c.structString(0, 0), "T")
+	}
+	return c.newStruct(0, 0), c.structString(0, 0)
 }
 
 func (c Case) newSlice(ids ...uint) reflect.Value {
@@ -515,12 +561,14 @@ func (c Case) run(db *gorm.DB) (*gorm.DB, string) {
 		tx = db.Save(c.newSlice(1, 0).Interface())
 	case fUpdatesStruct:
 		db = c.applySel(c.applyTarget(db, &sb), &sb)
-		fmt.Fprintf(&sb, ".Updates(%s)", c.structString(0, 0))
-		tx = db.Updates(c.newStruct(0, 0).Elem().Interface())
+		uv, us := c.updValue()
+		fmt.Fprintf(&sb, ".Updates(%s)", us)
+		tx = db.Updates(uv.Elem().Interface())
 	case fUpdatesStructPtr:
 		db = c.applySel(c.applyTarget(db, &sb), &sb)
-		fmt.Fprintf(&sb, ".Updates(&%s)", c.structString(0, 0))
-		tx = db.Updates(c.newStruct(0, 0).Interface())
+		uv, us := c.updValue()
+		fmt.Fprintf(&sb, ".Updates(&%s)", us)
+		tx = db.Updates(uv.Interface())
 	case fUpdatesSelf:
 		db = c.applySel(c.applyTarget(db, &sb), &sb)
 		fmt.Fprintf(&sb, ".Updates(&%s)", c.structString(1, 0))
@@ -547,8 +595,9 @@ func (c Case) run(db *gorm.DB) (*gorm.DB, string) {
 		tx = db.UpdateColumns(mp)
 	case fUpdateColumnsStruct:
 		db = c.applySel(c.applyTarget(db, &sb), &sb)
-		fmt.Fprintf(&sb, ".UpdateColumns(%s)", c.structString(0, 0))
-		tx = db.UpdateColumns(c.newStruct(0, 0).Elem().Interface())
+		uv, us := c.updValue()
+		fmt.Fprintf(&sb, ".UpdateColumns(%s)", us)
+		tx = db.UpdateColumns(uv.Elem().Interface())
 	default:
 		panic("unknown finisher")
 	}
